@@ -20,6 +20,7 @@ import (
 	"hash/fnv"
 	"os"
 	"path/filepath"
+	"runtime"
 	"sort"
 	"strconv"
 	"strings"
@@ -334,6 +335,48 @@ func Fail(t tb, name string, repro any, format string, args ...any) {
 	mu.Unlock()
 	fmt.Printf("VERIF-VIOLATION check=%s replay=%s msg=%s\n", name, path, oneLine(msg))
 	t.Fatalf("VIOLATION %s: %s", name, msg)
+}
+
+// HangLimit is how long a single call of library code may stay out before it is reported as not
+// returning.  Ordinary calls take microseconds to milliseconds; the limit is four to seven orders of
+// magnitude above that, so that a starved machine cannot reach it, while an endless loop or a
+// goroutine blocked on a lock it will never get always does.
+const HangLimit = 150 * time.Second
+
+// Abort records a violation that leaves the process in a state it cannot continue from (a call that
+// never returned: its goroutine cannot be stopped) - the replay file and the VERIF-VIOLATION line are
+// written, the evidence is flushed and the process exits at once.
+func Abort(name string, repro any, format string, args ...any) {
+	msg := fmt.Sprintf(format, args...)
+	path := filepath.Join(replayOutDir(), sanitize(name)+fmt.Sprintf(".shard%d.json", Shard()))
+	b, _ := json.MarshalIndent(map[string]any{"property": property, "check": name, "message": msg, "case": repro, "seed": Seed(), "tier": Tier()}, "", " ")
+	os.WriteFile(path, b, 0o644)
+	mu.Lock()
+	violations = append(violations, ViolationRec{Test: name, Replay: path, Msg: msg})
+	mu.Unlock()
+	fmt.Printf("VERIF-VIOLATION check=%s replay=%s msg=%s\n", name, path, oneLine(msg))
+	Flush()
+	os.Exit(1)
+}
+
+// Watch runs fn and returns true when it came back within HangLimit; otherwise it returns false with
+// a dump of all goroutine stacks (fn's goroutine is still out there).
+func Watch(fn func()) (returned bool, stacks string) {
+	done := make(chan struct{})
+	go func() {
+		defer close(done)
+		fn()
+	}()
+	timer := time.NewTimer(HangLimit)
+	defer timer.Stop()
+	select {
+	case <-done:
+		return true, ""
+	case <-timer.C:
+		buf := make([]byte, 1<<17)
+		n := runtime.Stack(buf, true)
+		return false, string(buf[:n])
+	}
 }
 
 func oneLine(s string) string {
